@@ -45,3 +45,11 @@ From RS Require Import EndToEndStmts EndToEndFacts.
 Theorem C03_end_to_end : stmt_end_to_end.
 Proof. exact end_to_end. Qed.
 Print Assumptions C03_end_to_end.
+
+(** END TO END with the transition optimisation INSIDE the model (TOpt.v; PipelineOptStmts.v): the same conclusion for
+    every result of the pipeline in which the optimiser is the modelled function — the only oracles left between the flow
+    tours and the JSON are the two pick functions of the parallel minimisers, bound by the min_by contract *)
+From RS Require Import PipelineOptStmts PipelineOptFacts.
+Theorem end_to_end_with_modelled_optimiser : stmt_end_to_end_opt.
+Proof. exact end_to_end_opt. Qed.
+Print Assumptions end_to_end_with_modelled_optimiser.
